@@ -63,6 +63,20 @@ func SysTxList(txs []*ethtypes.Transaction) string {
 	return tr.StrList(ss)
 }
 
+// SysTxRawHex: the system transactions byte for byte (what the execution layer is handed: type byte || RLP)
+func SysTxRawHex(txs []*ethtypes.Transaction) string {
+	var ss []string
+	for _, tx := range txs {
+		raw, err := tx.MarshalBinary()
+		if err != nil {
+			ss = append(ss, "marshal-error")
+			continue
+		}
+		ss = append(ss, tr.Hex(raw))
+	}
+	return tr.StrList(ss)
+}
+
 func SysTxListRaw(raws [][]byte) string {
 	var ss []string
 	for _, raw := range raws {
